@@ -22,7 +22,7 @@ Nodes == Pci \cup Acpi \cup Hd \cup File \cup Fw \cup Usb
 Small == {[kind |-> "pci", fn |-> 0, dev |-> 31], [kind |-> "acpi", hid |-> <<208, 65, 3, 10>>, uid |-> <<0, 0, 0, 0>>],
           [kind |-> "hd", part |-> 1, start |-> 2048, size |-> 1024000, sig |-> "g1", format |-> 2, sigtype |-> 2],
           [kind |-> "file", path |-> <<92, 69, 70, 73>>], [kind |-> "fw", name |-> "g2"], [kind |-> "usb", port |-> 255, iface |-> 1]}
-Descs == {<<>>, <<76, 105, 110>>, <<65281, 65>>, <<32896, 511>>, <<53, 48, 37, 32, 37, 118>>, <<65, 32, 19968>>, <<233, 256>>, <<128512, 65>>, Long(130)}
+Descs == {<<>>, <<76, 105, 110>>, <<65281, 65>>, <<32896, 511>>, <<53, 48, 37, 32, 37, 118>>, <<65, 32, 19968>>, <<233, 256>>, <<99, 97, 102, 233>>, <<128, 255>>, <<128512, 65>>, Long(130)}   \* <<99, 97, 102, 233>> ("café"), <<128, 255>>: every code unit below 256, not all below 128
 Seqs == {<<>>} \cup {<<a>> : a \in Nodes} \cup {<<a, b>> : a \in Small, b \in Nodes} \cup {<<a, b>> : a \in Nodes, b \in Small}
         \cup (IF Tier = "t" THEN {<<a, b, c>> : a \in Small, b \in Nodes, c \in Small} ELSE {<<a, b, c>> : a \in Small, b \in Small, c \in Small})
 Init == /\ done = FALSE
